@@ -259,7 +259,7 @@ def _markers_from_stubs(expr: astroid.Call, inferred, stubs: StubsManager) -> It
         if stub is None:
             continue
         names = stub.get(func=func_name, contract=Category.HAS)
-        for name in names:
+        for name in sorted(names):
             yield Token(marker=name, line=expr.lineno, col=expr.col_offset)
 
 
